@@ -447,7 +447,12 @@ class Interp:
     def unique_name(self, p, a):
         """An assembly entering a reactor needs a name that is unique there (callers: makeUnique/renumber); the
         harness keeps assembly names unique among everything it tracks (copies start with the original's name)."""
-        if any(x.cls == "A" and x is not a and x.obj.getName() == a.obj.getName() for x in self.nodes):
+        clash = any(x.cls == "A" and x is not a and x.obj.getName() == a.obj.getName() for x in self.nodes)
+        if p.cls == "K":
+            # Core.add refuses a name that its by-name table maps to another object; the table also keeps assemblies that
+            # were discharged with trackAssems on (also when there is no SFP to receive them), so ask the core itself
+            clash = clash or p.obj.assembliesByName.get(a.obj.getName(), a.obj) is not a.obj
+        if clash:
             a.obj.renumber(self.next_num)
             self.next_num += 1
             self.out.label("renumbered")
